@@ -8,6 +8,8 @@ mod corpus;
 mod derive;
 mod dump;
 mod echo;
+mod ecorpus;
+mod elem;
 mod errs;
 mod listparse;
 mod shape_recv;
@@ -26,6 +28,7 @@ fn dispatch(case: &Value) -> Value {
         "shape" => shapes::run_shape(case),
         "usage" => usage::run_usage(case),
         "derive" => derive::run_derive(case),
+        "elem" => elem::run_elem(case),
         _ => json!({"error": format!("unknown op {}", op)}),
     }
 }
